@@ -25,12 +25,33 @@ type Env struct {
 	Vars map[types.Object]constant.Value // tracked locals; nil value = unknown
 	Syms map[string]constant.Value       // inputs keyed by their rendered expression
 	Ev   []string
+	Cnt  map[string]int // event counters ("#name" events)
+}
+
+// fingerprint renders the store for state merging.
+func (e *Env) fingerprint() string {
+	var ks []string
+	for k, v := range e.Vars {
+		s := "?"
+		if v != nil {
+			s = v.ExactString()
+		}
+		ks = append(ks, fmt.Sprintf("%p=%s", k, s))
+	}
+	for k, v := range e.Cnt {
+		ks = append(ks, fmt.Sprintf("#%s=%d", k, v))
+	}
+	sort.Strings(ks)
+	return strings.Join(ks, ",") + "|" + strings.Join(e.Ev, ";")
 }
 
 func (e *Env) clone() *Env {
-	n := &Env{Vars: map[types.Object]constant.Value{}, Syms: e.Syms, Ev: append([]string{}, e.Ev...)}
+	n := &Env{Vars: map[types.Object]constant.Value{}, Syms: e.Syms, Ev: append([]string{}, e.Ev...), Cnt: map[string]int{}}
 	for k, v := range e.Vars {
 		n.Vars[k] = v
+	}
+	for k, v := range e.Cnt {
+		n.Cnt[k] = v
 	}
 	return n
 }
@@ -237,6 +258,9 @@ func (j *Job) Run() []Outcome {
 				o.State[name] = v.ExactString()
 			}
 		}
+		for k, v := range env.Cnt {
+			o.State["#"+k] = fmt.Sprint(v)
+		}
 		o.Events = env.Ev
 		k := o.String()
 		if !seen[k] {
@@ -251,7 +275,8 @@ func (j *Job) Run() []Outcome {
 		env   *Env
 		steps int
 	}
-	work := []frame{{j.Start.B, j.Start.I, &Env{Vars: map[types.Object]constant.Value{}, Syms: j.Inputs}, 0}}
+	work := []frame{{j.Start.B, j.Start.I, &Env{Vars: map[types.Object]constant.Value{}, Syms: j.Inputs, Cnt: map[string]int{}}, 0}}
+	visited := map[string]bool{}
 	for k, v := range j.Init {
 		work[0].env.Vars[k] = v
 	}
@@ -267,12 +292,23 @@ func (j *Job) Run() []Outcome {
 			emit(Outcome{Kind: "next"}, env)
 			continue
 		}
+		if fr.i == 0 {
+			key := fmt.Sprintf("%d|%s", b.Index, env.fingerprint())
+			if visited[key] {
+				continue // identical abstract state already explored from here
+			}
+			visited[key] = true
+		}
 		done := false
 		for i := fr.i; i < len(b.Nodes) && !done; i++ {
 			n := b.Nodes[i]
 			if j.Event != nil {
 				if s := j.Event(n, func(e ast.Expr) string { return render(j.Eval(env, e), e) }); s != "" {
-					env.Ev = append(env.Ev, s)
+					if strings.HasPrefix(s, "#") {
+						env.Cnt[s[1:]]++
+					} else {
+						env.Ev = append(env.Ev, s)
+					}
 				}
 			}
 			switch st := n.(type) {
@@ -369,6 +405,31 @@ func (j *Job) Run() []Outcome {
 		if len(b.Succs) == 1 {
 			work = append(work, frame{b.Succs[0], 0, env, fr.steps + 1})
 			continue
+		}
+		// range over a constant integer: count iterations in the key variable
+		if b.Kind == cfg.KindRangeLoop && len(b.Succs) == 2 {
+			if rs, ok := b.Stmt.(*ast.RangeStmt); ok {
+				if nv := j.Eval(env, rs.X); nv != nil && nv.Kind() == constant.Int {
+					if kid, ok := rs.Key.(*ast.Ident); ok {
+						kobj := info.ObjectOf(kid)
+						cur, has := env.Vars[kobj]
+						var next constant.Value
+						if !has || cur == nil {
+							next = constant.MakeInt64(0)
+						} else {
+							next = constant.BinaryOp(cur, token.ADD, constant.MakeInt64(1))
+						}
+						if constant.Compare(next, token.LSS, nv) {
+							env.Vars[kobj] = next
+							work = append(work, frame{b.Succs[0], 0, env, fr.steps + 1})
+						} else {
+							delete(env.Vars, kobj)
+							work = append(work, frame{b.Succs[1], 0, env, fr.steps + 1})
+						}
+						continue
+					}
+				}
+			}
 		}
 		// two-way branch
 		var decided constant.Value
